@@ -202,6 +202,29 @@ example : PlainNumeric kvsOk ∧ parseNumKw kvsOk = some ⟨some 0, some 3, none
     simp only [kvsOk, List.mem_cons, Prod.mk.injEq, List.mem_nil_iff, or_false] at h
     rcases h with ⟨rfl, rfl⟩ | ⟨rfl, rfl⟩ | ⟨rfl, rfl⟩ <;> simp
 
+/-! ## strings: `_positive_string` -/
+
+/-- C03 / strings: on every string schema whose length bounds do not cross (minLength ≤ maxLength when both are
+    present; any pattern / format / other keywords next to them), every non-exempt value of `_positive_string`
+    conforms to the schema — the derived requests `{**schema, "minLength": a, "maxLength": b}` only tighten the
+    bounds, so an answer valid for the request (oracle contract) is valid for the schema. -/
+theorem positive_string_valid (fuel : Nat) (env : Env) (hoas : env.oas = Oas.none) (ctx : Ctx)
+    (kvs : List (String × Json)) (mn0 mx : Option Nat) (href : Json.lookup "$ref" kvs = none)
+    (hmn : lenKw? kvs "minLength" = some mn0) (hmx : lenKw? kvs "maxLength" = some mx)
+    (hsat : ∀ a b, mn0 = some a → mx = some b → a ≤ b) :
+    Sound (fun gv => labelOk (fuel + 1) env (.obj kvs) gv = true) (callSound (fuel + 1) env) (positiveString ctx kvs) :=
+  positive_string_sound fuel env hoas ctx kvs mn0 mx href hmn hmx hsat
+
+/-- non-vacuity: `{type: string, minLength: 1, maxLength: 3}` meets the hypotheses and the generator makes four
+    requests (lengths 1, 2, 3 and 2 again is de-duplicated: three values) -/
+example : lenKw? [("type", .str "string"), ("minLength", .num 1 0), ("maxLength", .num 3 0)] "minLength" = some (some 1) ∧
+    ((positiveString ⟨"body", true, false, []⟩ [("type", .str "string"), ("minLength", .num 1 0), ("maxLength", .num 3 0)]
+        { orc := [.val (.str "a"), .val (.str "ab"), .val (.str "abc")], seen := [] }).out.map (·.desc)) =
+      [.minLengthString, .nearBoundaryString, .maxLengthString] := by
+  constructor
+  · rfl
+  · decide
+
 /-! ## cases: `_iter_coverage_cases` -/
 
 /-- Full statement (C03_case_label + C03_components_consistent): whatever values cover_schema_iter handed over,
